@@ -45,10 +45,31 @@ CHECKS = {
  'C20': ('other', "Per call, for any pending buffer (<=120 bytes, any content) and any read: packets are decoded only from the 20-byte window at the first AA 55, bad checksums are never delivered (decode_usb proved), the bytes held back are a suffix of the stream containing every unconsumed start marker and a trailing AA, and stay bounded (<=120). Resynchronisation over whole streams is a bounded stand-in.",
          "StreamReader.read contract assumed; whole-stream lemmas bounded."),
 }
+ADD = {
+ 'C01': " Helper bodies: decode_time / decode_date / decode_float / decode_decimal are proved against h-m-s / day-number / IEEE-single / BCD contracts (datetime and struct through dependency contracts); decode_string_fix/lz/lau and decode_bit_lookup are bounded-checked against references (labelled bounded, not counted as proved).",
+ 'C02': " Also under this property: decode_number's contract for every bit length of an encodable field, encode_number with excess-K offsets, encode_date / encode_float contracts.",
+ 'C06': " Also under this property: the fast-packet segmentation contract (every payload length), the header pair _build_header/_extract_header, and one receive step of each of the four clients from an arbitrary pending buffer (the framing step by which a concatenation of packets is split back).",
+ 'C07': " Also under this property: the _extract_header contract (frame-level formats vs formats that carry the PGN number) and the reassembly transition contract (frame-wise delivery = pre-assembled delivery).",
+ 'C08': " The hand-over of the payload integer is checked for 1, 2, 3, 5, 7, 8 (and 12, whole messages) data bytes.",
+ 'C09': " get_field_by_id is additionally checked over the id universe of the database: for every encodable definition every field present is returned and every field missing raises ValueError.",
+ 'C10': " Also under this property: every decodable address claim is decoded whatever the filters (claim completeness; PGN 60928 proved known and single-frame), and the reassembly transition contract (a completed message's record is deleted whether the decode step returns a message, None or raises).",
+ 'C12': " The consumer contract is batch-robust: every item taken off the queue in an iteration reaches the callback exactly once, in queue order, whatever earlier callbacks did.",
+ 'C13': " A connection attempt may fail only because the transport refused (StreamWriter.wait_closed modelled: may re-raise the old link's error).",
+ 'C16': " Also under this property: the outcome contract of C10 (the result is a function of configuration, source map and input, independent of the set of PGNs already reported unsupported), and only PGNs without decode functions are remembered as unsupported.",
+ 'C17': " The decoder's call site is also under contract: every returned message went through add_data once with the decoder's own build_network_map flag.",
+ 'C19': " Every write happens while holding the send lock, the lock is held from the first to the last packet (1..3 packets explored), and every packet goes to the writer that is current when it is written (a reconnect by another task may replace the link at any suspension).",
+ 'C20': " The additive checksum contract of calculate_canbus_checksum is checked under this property too.",
+}
+COMMON = " Every repository function the tasks execute also carries the frame obligation 'reads and writes no mutable module-level state'."
+
+
 def main():
     checks = []
     for pid in sorted(CHECKS):
         lvl, text, note = CHECKS[pid]
+        text = text + ADD.get(pid, '') + COMMON
+        if pid == 'C01':
+            note = "Trusted: pyvc's Python semantics, spec compiler, z3/cvc5. String / bit-lookup helper bodies are bounded-checked only.
         checks.append({"property_id": pid, "quick_cmd": f"./check {pid} --tier quick", "thorough_cmd": f"./check {pid} --tier thorough",
                        "evidence_file": f"evidence/{pid}.json", "replay_cmd_template": f"./check {pid} --replay {{path}}", "engine": "pyvc",
                        "level_claimed": {"category": lvl, "text": text, "design_ref": f"DESIGN.md section 6 {pid}"},
